@@ -22,7 +22,8 @@ RULE = ("(a) invocation catalogue x generator: every tool with fully specified i
         "both, both in the other order}: the parsed value is the intended day, printed names come "
         "from B (English without --locale), each option affects its own direction only. "
         "Non-trivial: environments differing from the baseline in >= 2 of {TZ, locale, clock}; "
-        "locale pairs with A != B")
+        "locale pairs with A != B"
+        " Also: --base with dgrep, dtest and ddiff on month-day values; locale cases with the value arriving on stdin.")
 ASSUMPTIONS = ["the clock is faked at libc level (time, gettimeofday, clock_gettime)",
                "inputs underspecified without --base and the specials now/today depend on the clock by definition",
                "stderr is compared for emptiness only"]
